@@ -12,6 +12,7 @@ pub fn dispatch(cmd: &str, c: &Value) -> Value {
         "tuple_roundtrip" => tuple_roundtrip(c),
         "lz_roundtrip" => lz_roundtrip(c),
         "segment" => segment(c),
+        "archive_ops" => archive_ops(c),
         #[cfg(ekg_ragc_verif)]
         "range_query" => range_query(c),
         _ => json!({"error": format!("unknown command {}", cmd)}),
@@ -156,4 +157,85 @@ pub fn range_query(c: &Value) -> Value {
     let e = end.min(full.len());
     let expect: Vec<u8> = if start >= end || start >= full.len() { vec![] } else { full[start..e].to_vec() };
     json!({ "full": full, "len": len, "range": range, "ok": len == full.len() && range == expect })
+}
+
+// ---------------------------------------------------------------- C13 archive container
+fn tmp_path(tag: &str) -> std::path::PathBuf {
+    let mut p = std::env::temp_dir();
+    p.push(format!("ragc-replay-{}-{}-{}.agc", tag, std::process::id(), std::time::SystemTime::now().duration_since(std::time::UNIX_EPOCH).unwrap().as_nanos()));
+    p
+}
+
+fn u64_of(v: &Value) -> u64 {
+    v.as_u64().unwrap_or_else(|| v.as_str().map(|s| s.parse().unwrap()).unwrap_or(0))
+}
+
+pub fn archive_ops(c: &Value) -> Value {
+    use ragc_common::Archive;
+    let path = tmp_path("c13");
+    let mut names: Vec<String> = vec![];
+    let mut parts: Vec<Vec<(Vec<u8>, u64)>> = vec![];
+    let mut buf: std::collections::BTreeMap<usize, Vec<(Vec<u8>, u64)>> = Default::default();
+    let mut raw: Vec<u64> = vec![];
+    let mut why = String::new();
+    {
+        let mut ar = Archive::new_writer();
+        ar.open(&path).unwrap();
+        for op in c["ops"].as_array().unwrap() {
+            let o = op.as_array().unwrap();
+            match o[0].as_str().unwrap() {
+                "reg" => {
+                    let nm = o[1].as_str().unwrap().to_string();
+                    let id = ar.register_stream(&nm);
+                    let exp = match names.iter().position(|n| *n == nm) { Some(i) => i, None => { names.push(nm); parts.push(vec![]); raw.push(0); names.len() - 1 } };
+                    if id != exp { why = format!("register returned {} expected {}", id, exp); }
+                }
+                "add" => { let sid = o[1].as_u64().unwrap() as usize; let d = bytes(&o[2]); let m = u64_of(&o[3]); ar.add_part(sid, &d, m).unwrap(); parts[sid].push((d, m)); }
+                "buf" => { let sid = o[1].as_u64().unwrap() as usize; let d = bytes(&o[2]); let m = u64_of(&o[3]); ar.add_part_buffered(sid, d.clone(), m); buf.entry(sid).or_default().push((d, m)); }
+                "raw" => { let sid = o[1].as_u64().unwrap() as usize; let r = u64_of(&o[2]); ar.set_raw_size(sid, r); raw[sid] = r; }
+                _ => { ar.flush_buffers().unwrap(); for (sid, ps) in std::mem::take(&mut buf) { parts[sid].extend(ps); } }
+            }
+        }
+        ar.flush_buffers().unwrap();
+        for (sid, ps) in std::mem::take(&mut buf) { parts[sid].extend(ps); }
+        ar.close().unwrap();
+    }
+    let mut rd = Archive::new_reader();
+    let mut ok = why.is_empty();
+    match rd.open(&path) {
+        Err(e) => { ok = false; why = format!("reopen failed: {}", e); }
+        Ok(()) => {
+            let mut cur = vec![0usize; names.len()];
+            let mut chk = |sid: usize, pid: usize, d: &Vec<u8>, m: u64, ok: &mut bool, why: &mut String| {
+                let (ed, em) = &parts[sid][pid];
+                let em = if ed.is_empty() { 0 } else { *em };
+                if d != ed || m != em { *ok = false; *why = format!("part ({},{}) differs", sid, pid); }
+            };
+            let mut seq = |rd: &mut Archive, sid: usize, cur: &mut Vec<usize>, ok: &mut bool, why: &mut String| {
+                match rd.get_part(sid).unwrap() {
+                    None => { if cur[sid] < parts[sid].len() { *ok = false; *why = format!("get_part({}) None too early", sid); } }
+                    Some((d, m)) => { if cur[sid] >= parts[sid].len() { *ok = false; *why = format!("get_part({}) extra part", sid); } else { let (ed, em) = &parts[sid][cur[sid]]; let em = if ed.is_empty() { 0 } else { *em }; if d != *ed || m != em { *ok = false; *why = format!("sequential part ({},{}) differs", sid, cur[sid]); } cur[sid] += 1; } }
+                }
+            };
+            for r in c["reads"].as_array().unwrap() {
+                let o = r.as_array().unwrap();
+                if o[0].as_str().unwrap() == "seq" { seq(&mut rd, o[1].as_u64().unwrap() as usize, &mut cur, &mut ok, &mut why); }
+                else { let (s, p) = (o[1].as_u64().unwrap() as usize, o[2].as_u64().unwrap() as usize); let (d, m) = rd.get_part_by_id(s, p).unwrap(); chk(s, p, &d, m, &mut ok, &mut why); }
+            }
+            if rd.get_num_streams() != names.len() { ok = false; why = "stream count".into(); }
+            for (sid, nm) in names.iter().enumerate() {
+                if rd.get_stream_id(nm) != Some(sid) || rd.get_stream_name(sid) != Some(nm.as_str()) { ok = false; why = format!("stream {} id/name", sid); }
+                if rd.get_num_parts(sid) != parts[sid].len() { ok = false; why = format!("stream {} part count {} != {}", sid, rd.get_num_parts(sid), parts[sid].len()); continue; }
+                if rd.get_raw_size(sid) != raw[sid] { ok = false; why = format!("stream {} raw size", sid); }
+                for pid in 0..parts[sid].len() { let (d, m) = rd.get_part_by_id(sid, pid).unwrap(); chk(sid, pid, &d, m, &mut ok, &mut why); }
+            }
+            for sid in 0..names.len() {
+                while cur[sid] < parts[sid].len() && ok { seq(&mut rd, sid, &mut cur, &mut ok, &mut why); }
+                if ok { seq(&mut rd, sid, &mut cur, &mut ok, &mut why); }
+            }
+        }
+    }
+    let file = std::fs::read(&path).unwrap_or_default();
+    let _ = std::fs::remove_file(&path);
+    json!({ "ok": ok, "why": why, "file": file })
 }
